@@ -170,7 +170,7 @@ func (g *gogen) tag(f *Field) string {
 	}
 	parts = append(parts, "proto3")
 	if f.Enum != nil && !f.IsMap() {
-		parts = append(parts, "enum="+f.Enum.FullName)
+		parts = append(parts, "enum="+enumTagName(f.Enum))
 	}
 	if f.Oneof != nil || f.IsOptional() {
 		parts = append(parts, "oneof")
@@ -184,11 +184,16 @@ func (g *gogen) tag(f *Field) string {
 		vw := wireOf(f, f.ValType)
 		ve := ""
 		if f.Enum != nil {
-			ve = ",enum=" + f.Enum.FullName
+			ve = ",enum=" + enumTagName(f.Enum)
 		}
 		t += fmt.Sprintf(" protobuf_val:\"%s,2,opt,name=value,proto3%s\"", vw, ve)
 	}
 	return "`" + t + "`"
+}
+
+// enumTagName is how protoc-gen-go names an enum in struct tags: proto package + "." + Go identifier.
+func enumTagName(e *Enum) string {
+	return qualify(e.File.Package, GoCamelCase(e.File.relName(e.FullName)))
 }
 
 func comment(c, indent string) string {
